@@ -65,6 +65,26 @@ CHECKS = {
       ref="DESIGN.md §3 C17"),
 }
 
+# techniques added in the later rounds (appended to the per-property description)
+ALL_TECH = "swapped-argument / crossed-field lint (operand provenance vs callee parameter and field names) over the functions of the anchored files; ref=RULES.md for the complete rule list"
+EXTRA_TECH = {
+ "C01": "who-may-call rule for BOM-sniffing decoders; must-typestate of action preconditions; paired-counter arithmetic of the handler vectors",
+ "C03": "partial evaluation of LocalNameHash::update over all 256 bytes from MIR (code table, Tag constants recomputed); namespace-stack primitive effects",
+ "C04": "partial evaluation of LocalNameHash::update over all 256 bytes from MIR (injective 5-bit codes, Tag constants); sign-domain abstract interpretation of an+b; product exploration against the WHATWG reference (attributes the VM matches on)",
+ "C05": "control-independence of handler dispatch from the emission gate; decision tables of the stack directive and text-mode tags",
+ "C06": "control dependence of simulator feedback calls (only on tag kind); operand provenance of the scanner-to-lexer feedback directive; who-may-write inventory of the parked text-type switch",
+ "C07": "rejected edits leave raw bytes (must-not-reach-Err after invalidation)",
+ "C08": "first-duplicate lookup direction; <meta charset> decision rule",
+ "C10": "examined-Result Err-edge reachability (no swallowed error) with a reviewed table of locally handled errors; charged == reserved by SSA provenance",
+ "C11": "examined-Result Err-edge reachability (no swallowed error); flag plumbing Settings -> TransformStream; failed token not emitted",
+ "C12": "examined-Result Err-edge reachability (no swallowed error); flag independence",
+ "C13": "provenance of every byte slice handed to the output sink (input bytes or encoder output); no Encoding::output_encoding detour",
+ "C15": "partial evaluation over the byte domain for arithmetic assertions; asserted preconditions of eq_case_insensitive at every call site; product exploration against the WHATWG reference",
+ "C16": "sibling-table agreement of the namespace URI twins; first-duplicate lookup direction",
+ "C17": "named-argument plumbing through the C API wrappers; sibling-table agreement of the C-only namespace URI twin",
+ "C18": "last-error slot always overwritten (no state carried between instances)",
+}
+
 PENDING_REASON = "check for this property is not built yet in this revision (work in progress; see DESIGN.md §3 for the planned static rules)"
 
 def main():
@@ -88,7 +108,7 @@ def main():
                 "engine": "static-rules",
                 "level_claimed": {"category": "other", "text": c["text"], "design_ref": c["ref"]},
                 "level_note": NOTE + c.get("note", ""),
-                "technique": "static analysis: " + c["tech"],
+                "technique": "static analysis: " + c["tech"] + (("; " + EXTRA_TECH[pid]) if pid in EXTRA_TECH else "") + "; " + ALL_TECH,
             })
         else:
             na.append({"property_id": pid, "reason": extra.get("na", {}).get(pid, PENDING_REASON)})
